@@ -172,6 +172,8 @@ func (p *instancePool) warmUpGun(ctx context.Context) error {
 	if err != nil {
 		return fmt.Errorf("can't initiate a gun: %w", err)
 	}
+	// The gun is needed for warm up only: every instance creates its own one.
+	defer func() { _ = closeGun(gun, p.log) }()
 	if gunWithWarmUp, ok := gun.(warmup.WarmedUp); ok {
 		p.sharedGunDeps, err = gunWithWarmUp.WarmUp(&warmup.Options{Log: p.log, Ctx: ctx})
 		if err != nil {
